@@ -275,6 +275,12 @@ impl<R: Read + Seek> ReadBox<&mut R> for HvcCBox {
         for _ in 0..num_of_arrays {
             let params = reader.read_u8()?;
             let num_nalus = reader.read_u16::<BigEndian>()?;
+            // every nal unit takes at least its 16-bit length
+            if reader.stream_position()? + 2 * num_nalus as u64 > box_end {
+                return Err(Error::InvalidData(
+                    "hvcC array declares more nal units than could fit in the box",
+                ));
+            }
             let mut nalus = Vec::with_capacity(num_nalus as usize);
 
             for _ in 0..num_nalus {
